@@ -92,6 +92,9 @@ def analyse(cls_name, fname):
     return graph
 
 
+FACTORIES = []
+
+
 def check_factories():
     """the command factories must be what their names say: Inverter._read_command & co. delegate to the protocol object's factory of
     the same kind, and the protocol factories return a freshly constructed command of that kind (no caches, no dispatch)"""
@@ -108,6 +111,7 @@ def check_factories():
               and [ast.unparse(a) for a in body[0].value.args] == argnames and not body[0].value.keywords)
         if not ok: fail(fn, f'Inverter.{name} is not a plain delegation to self._protocol.{target}')
     prot, _ = load('protocol.py')
+    FACTORIES.clear()
     table = {'UdpInverterProtocol': {'read_command': 'ModbusRtuReadCommand', 'write_command': 'ModbusRtuWriteCommand', 'write_multi_command': 'ModbusRtuWriteMultiCommand'},
              'TcpInverterProtocol': {'read_command': 'ModbusTcpReadCommand', 'write_command': 'ModbusTcpWriteCommand', 'write_multi_command': 'ModbusTcpWriteMultiCommand'}}
     for cls, m in table.items():
@@ -121,6 +125,7 @@ def check_factories():
                   and ast.unparse(body[0].value.func) == ctor
                   and [ast.unparse(a) for a in body[0].value.args] == ['self._comm_addr'] + argnames and not body[0].value.keywords)
             if not ok: fail(fn, f'{cls}.{name} is not `return {ctor}(self._comm_addr, ...)`')
+            FACTORIES.append((cls, name, ctor))
     # the command classes: the function code in the request is the one of their kind
     fcodes = {'ModbusRtuReadCommand': 'create_modbus_rtu_request', 'ModbusTcpReadCommand': 'create_modbus_tcp_request',
               'ModbusRtuWriteCommand': 'create_modbus_rtu_request', 'ModbusTcpWriteCommand': 'create_modbus_tcp_request',
@@ -144,6 +149,10 @@ def generate():
            "Inductive ckind := CkRead | CkWrite | CkGeneric.", ""]
     km = {'R': 'CkRead', 'W': 'CkWrite', 'G': 'CkGeneric'}
     check_factories()
+    # emitted only when the check above passed (otherwise this file is not produced): Inverter._read_command & co. delegate to the protocol object's
+    # factory, which returns `<Command class of its transport and kind>(self._comm_addr, <the arguments>)` -- a new object per call, no cache
+    out.append("Definition command_factories : list (string * string * string) :=\n  [" + ";\n   ".join(
+        f'({cstr(c)}, {cstr(m)}, {cstr(k)})' for c, m, k in FACTORIES) + "].\n")
     for cls, fname in (('ET', 'et.py'), ('DT', 'dt.py'), ('ES', 'es.py')):
         g = analyse(cls, fname)
         rows = [f'  ({cstr(m)}, ([' + '; '.join(cstr(c) for c in calls) + '], [' + '; '.join(km[k] for k in kinds) + ']))' for m, (calls, kinds) in sorted(g.items())]
